@@ -211,6 +211,14 @@ def gen_trace(core, aio, rng, tier, tmpdir, idx):
                 r = rng.choice(c)
                 arr = r.numpy()
                 import numpy as np
+                if rng.random() < .6:
+                    # a caller may do anything with an array it was given; a later export must still be the region's samples
+                    try:
+                        arr /= 2
+                        arr[...] = -1
+                    except Exception:
+                        pass
+                    arr = r.numpy() if rng.random() < .5 else np.asarray(r)
                 a2 = np.asarray(r)
                 ok_shape = arr.shape == (ch, len(r)) and a2.shape == arr.shape
                 vals = [[int(v) for v in row] for row in arr] if ok_shape else []
